@@ -687,12 +687,15 @@ def parseNumber (cfg : Cfg) (fuel : Nat) : P Number := do
   let c ← peekOrNull
   if c == 35 then do
     discard
-    let r ← nextOrNull
-    if r == 98 then parseRadixLiteral cfg fuel 2
-    else if r == 111 then parseRadixLiteral cfg fuel 8
-    else if r == 100 then parseRadixLiteral cfg fuel 10
-    else if r == 120 then parseRadixLiteral cfg fuel 16
-    else peekErr .invalidNumber
+    let r ← next
+    match r with
+    | none => peekErr .eofValue
+    | some r =>
+      if r == 98 then parseRadixLiteral cfg fuel 2
+      else if r == 111 then parseRadixLiteral cfg fuel 8
+      else if r == 100 then parseRadixLiteral cfg fuel 10
+      else if r == 120 then parseRadixLiteral cfg fuel 16
+      else peekErr .invalidNumber
   else parseRadixLiteral cfg fuel 10
 
 /-! ### tokens -/
